@@ -54,9 +54,23 @@ type TcbInfoDoc struct {
 	Levels     []TcbLevel
 	OmitLevels bool // emit no tcbLevels member at all
 	UpperHex   bool
+	IssueRaw   string // see issueMember
 }
 
-func ts(t time.Time) string { return t.UTC().Format("2006-01-02T15:04:05Z") }
+// ts writes an instant as RFC 3339 in UTC; a sub-second part is written only when there is one.
+func ts(t time.Time) string { return t.UTC().Format(time.RFC3339Nano) }
+
+// issueMember emits the issueDate member: raw == "" the date, "-" no member at all, anything else verbatim
+// as the member's value (null, a date in year 1 or 9999, ...).
+func issueMember(raw string, t time.Time) string {
+	switch raw {
+	case "":
+		return fmt.Sprintf(`"issueDate":%q,`, ts(t))
+	case "-":
+		return ""
+	}
+	return `"issueDate":` + raw + `,`
+}
 
 func (d *TcbInfoDoc) hx(b []byte) string {
 	s := hex.EncodeToString(b)
@@ -82,8 +96,8 @@ func comps(c [16]byte) string {
 // JSON emits the tcbInfo member exactly as it will be signed.
 func (d *TcbInfoDoc) JSON() []byte {
 	var sb strings.Builder
-	fmt.Fprintf(&sb, `{"id":%q,"version":%d,"issueDate":%q,"nextUpdate":%q,"fmspc":%q,"pceId":%q,"tcbType":%d,"tcbEvaluationDataNumber":%d,`,
-		d.ID, d.Version, ts(d.Issue), ts(d.Next), d.Fmspc, d.PceID, d.TcbType, d.EvalNum)
+	fmt.Fprintf(&sb, `{"id":%q,"version":%d,%s"nextUpdate":%q,"fmspc":%q,"pceId":%q,"tcbType":%d,"tcbEvaluationDataNumber":%d,`,
+		d.ID, d.Version, issueMember(d.IssueRaw, d.Issue), ts(d.Next), d.Fmspc, d.PceID, d.TcbType, d.EvalNum)
 	fmt.Fprintf(&sb, `"tdxModule":{"mrsigner":%q,"attributes":%q,"attributesMask":%q}`, d.hx(d.ModSigner), d.hx(d.ModAttr), d.hx(d.ModMask))
 	if d.Modules != nil {
 		sb.WriteString(`,"tdxModuleIdentities":[`)
@@ -153,14 +167,15 @@ type QEIdentityDoc struct {
 	ProdID     int
 	Levels     []QELevel
 	OmitLevels bool
+	IssueRaw   string // see issueMember
 }
 
 // JSON emits the enclaveIdentity member exactly as it will be signed.
 func (d *QEIdentityDoc) JSON() []byte {
 	var sb strings.Builder
 	up := func(b []byte) string { return strings.ToUpper(hex.EncodeToString(b)) }
-	fmt.Fprintf(&sb, `{"id":%q,"version":%d,"issueDate":%q,"nextUpdate":%q,"tcbEvaluationDataNumber":%d,"miscselect":%q,"miscselectMask":%q,"attributes":%q,"attributesMask":%q,"mrsigner":%q,"isvprodid":%d`,
-		d.ID, d.Version, ts(d.Issue), ts(d.Next), d.EvalNum, up(d.Misc), up(d.MiscMask), up(d.Attr), up(d.AttrMask), up(d.Mrsigner), d.ProdID)
+	fmt.Fprintf(&sb, `{"id":%q,"version":%d,%s"nextUpdate":%q,"tcbEvaluationDataNumber":%d,"miscselect":%q,"miscselectMask":%q,"attributes":%q,"attributesMask":%q,"mrsigner":%q,"isvprodid":%d`,
+		d.ID, d.Version, issueMember(d.IssueRaw, d.Issue), ts(d.Next), d.EvalNum, up(d.Misc), up(d.MiscMask), up(d.Attr), up(d.AttrMask), up(d.Mrsigner), d.ProdID)
 	if !d.OmitLevels {
 		sb.WriteString(`,"tcbLevels":[`)
 		for i, l := range d.Levels {
@@ -201,15 +216,39 @@ func SignedBody(name string, member []byte, signer *Key) []byte {
 	return Envelope(Member{name, member}, Member{"signature", []byte(`"` + hex.EncodeToString(signer.Sign64(member)) + `"`)})
 }
 
-// IssuerChainHeader encodes certificates the way the PCS does: URL-escaped PEM.
-func IssuerChainHeader(certs ...*Cert) string {
+// IssuerChainHeader encodes certificates the way the PCS does: URL-escaped PEM (space as %20).
+func IssuerChainHeader(certs ...*Cert) string { return IssuerChainHeaderEsc(0, certs...) }
+
+// IssuerChainHeaderEsc: the same text in one of the equivalent URL encodings — 0 as Intel's service
+// writes it (space %20, newline %0A, + / = escaped), 1 form encoding ('+' for a space, as Go's
+// url.QueryEscape and many HTTP stacks write), 2 lower-case hex digits in the escapes.
+func IssuerChainHeaderEsc(esc int, certs ...*Cert) string {
 	var pemAll []byte
 	for _, c := range certs {
 		pemAll = append(pemAll, c.PEM()...)
 	}
-	// The PCS percent-encodes the PEM text (space -> %20, newline -> %0A, + / = escaped); Go's
-	// QueryEscape would write '+' for a space, which the real service does not do.
-	return strings.ReplaceAll(url.QueryEscape(string(pemAll)), "+", "%20")
+	q := url.QueryEscape(string(pemAll))
+	switch esc {
+	case 1:
+		return q
+	case 2:
+		b := []byte(strings.ReplaceAll(q, "+", "%20"))
+		for i := 0; i+2 < len(b); i++ {
+			if b[i] == '%' {
+				b[i+1], b[i+2] = lowerHex(b[i+1]), lowerHex(b[i+2])
+				i += 2
+			}
+		}
+		return string(b)
+	}
+	return strings.ReplaceAll(q, "+", "%20")
+}
+
+func lowerHex(c byte) byte {
+	if c >= 'A' && c <= 'F' {
+		return c + 'a' - 'A'
+	}
+	return c
 }
 
 // Header names as a Go net/http client presents them (canonical MIME form).
